@@ -1,12 +1,32 @@
-"""Parse every module in /verif/spec with SANY (fails fast on a broken spec)."""
-import glob, os, subprocess, sys
+"""Parse the modules in /verif/spec with SANY (fails fast on a broken spec).
+Library modules and the modules of properties claimed in MANIFEST.json must parse; modules of properties that are
+not (yet) claimed are parsed too but only reported (work in progress must not break the setup of the claimed checks)."""
+import glob, json, os, re, subprocess, sys
+import concurrent.futures as cf
 VERIF = os.path.dirname(os.path.dirname(os.path.abspath(__file__)))
-bad = 0
-for p in sorted(glob.glob(os.path.join(VERIF, "spec", "*.tla"))):
+claimed = {c["property_id"] for c in json.load(open(os.path.join(VERIF, "MANIFEST.json")))["checks"]}
+
+
+def sany(p):
     r = subprocess.run(["java", "-DTLA-Library=" + os.path.join(VERIF, "spec"), "-cp",
                         "/opt/veriftools/tla/tla2tools.jar:/opt/veriftools/tla/CommunityModules-deps.jar", "tla2sany.SANY", p],
                        stdout=subprocess.PIPE, stderr=subprocess.STDOUT, text=True, cwd=os.path.join(VERIF, "spec"))
-    if r.returncode != 0 or "Semantic error" in r.stdout or "Parse Error" in r.stdout or "*** Errors" in r.stdout:
-        print("SANY FAILED:", p); print(r.stdout[-1500:]); bad += 1
-print("sany: %d modules, %d failed" % (len(glob.glob(os.path.join(VERIF, "spec", "*.tla"))), bad))
+    ok = not (r.returncode != 0 or "Semantic error" in r.stdout or "Parse Error" in r.stdout or "*** Errors" in r.stdout
+              or "Fatal errors" in r.stdout)
+    return p, ok, r.stdout
+
+
+files = sorted(glob.glob(os.path.join(VERIF, "spec", "*.tla")))
+bad = 0
+with cf.ThreadPoolExecutor(max_workers=8) as ex:
+    for p, ok, out in ex.map(sany, files):
+        if ok:
+            continue
+        m = re.match(r"(C\d\d)", os.path.basename(p))
+        required = (m is None) or (m.group(1) in claimed)
+        print("SANY %s: %s" % ("FAILED" if required else "failed (unclaimed property, ignored)", p))
+        if required:
+            print(out[-1500:])
+            bad += 1
+print("sany: %d modules, %d required modules failed" % (len(files), bad))
 sys.exit(1 if bad else 0)
